@@ -58,7 +58,7 @@ META = {
         "source predicates of link() always select exactly one source (P[Src].x or from_param) - the search order between "
         "fields and parameters for a predicate matching both is ambiguous in the tutorial and is not exercised",
         "functions handed to link / link_function / coercer / link_constant(factory=) are pure and shared by the reference",
-        "small scope: <=3 source fields, <=4 destination fields, recipes of length <=2, 3 value vectors per program",
+        "small scope: <=3 source fields, <=4 destination fields, recipes of length <=2, 4 value vectors per program (the last one all zero / empty)",
     ],
     "bound": {
         "quick": "shapes S in subsets{a,b} x D in subsets{a,b,d}; F1 default linking + policies x 10 parameter lists x 5 type "
@@ -168,9 +168,24 @@ def param_type(profile, pname):
 BASE = {"a": 10, "b": 20, "c": 30, "d": 40, "q": 50}
 
 
+ZERO_VECTOR = 3
+
+
 def value_of(ts, n, k):  # noqa: C901, PLR0911
     """the k-th value (k = 0, 1, 2) of a type built around the distinguishing integer n"""
     head = ts[0]
+    if k == ZERO_VECTOR:
+        # the falsy, non-None value of every type (0, '', empty containers): what `x and f(x)` / `x or default` get wrong
+        if head == "int":
+            return 0
+        if head == "str":
+            return ""
+        if head == "Union":
+            return value_of(R.not_none(ts), n, k)
+        if head == "List":
+            return []
+        if head == "Dict":
+            return {}
     if head == "int":
         return n + k
     if head == "str":
@@ -637,7 +652,7 @@ def evaluate(case, report):  # noqa: C901, PLR0912, PLR0915
     factory_fields = [f.name for f in prog.universe["Dst"].fields
                       if (lk := R.find_link(env, ("Model", "Src"), "Dst", f, True)) is not None and lk.kind == "factory"]
     produced = {}
-    for k in range(3):
+    for k in range(4):
         src_obj = prog.source(k)
         before = R.describe_as(env, src_obj, "Src")
         extra = prog.extra(k)
